@@ -356,6 +356,38 @@ Theorem snow3g_uea2_involutive :
 Proof. exact StreamCipherProofs.snow3g_uea2_involutive. Qed.
 Print Assumptions snow3g_uea2_involutive.
 
+(* IMB_CIPHER_SNOW3G_UEA2_BITLEN job, bit path, in place.  R1: bit offset not a multiple of 8
+   and the window does not end on a byte boundary: applying the job twice restores the buffer
+   exactly (all other dst bits are preserved).  (When the window ends on a byte boundary the
+   library ORs the last byte with its previous content — Spec/SNOW3G.v — and in-place
+   operation is not invertible; no theorem.) *)
+Theorem snow3g_uea2_bits_involutive :
+  forall key iv msg bitlen bitoff,
+  let base := N.to_nat (N.shiftr bitoff 3) in
+  let ob := N.land bitoff 7 in
+  ob <> 0%N -> N.land (ob + bitlen) 7 <> 0%N ->
+  bytes_ok msg = true ->
+  base + N.to_nat (N.shiftr (ob + bitlen + 7) 3) <= length msg ->
+  snow3g_uea2_inplace key iv (snow3g_uea2_inplace key iv msg bitlen bitoff) bitlen bitoff = msg.
+Proof. exact StreamCipherProofs.snow3g_uea2_bits_involutive. Qed.
+Print Assumptions snow3g_uea2_bits_involutive.
+
+(* R2: byte-aligned offset, bit length not a multiple of 8: the library overwrites the
+   trailing bits of the last byte with key stream; applying the job twice restores the
+   bitlen message bits, and no other byte of the buffer changes. *)
+Theorem snow3g_uea2_bits_window_restored :
+  forall key iv msg bitlen bitoff,
+  let base := N.to_nat (N.shiftr bitoff 3) in
+  let nb := N.to_nat (N.shiftr (bitlen + 7) 3) in
+  N.land bitoff 7 = 0%N -> N.land bitlen 7 <> 0%N -> base + nb <= length msg ->
+  let m2 := snow3g_uea2_inplace key iv (snow3g_uea2_inplace key iv msg bitlen bitoff) bitlen bitoff in
+  firstn base m2 = firstn base msg
+  /\ snow3g_take_bits bitlen (skipn base m2) = snow3g_take_bits bitlen (skipn base msg)
+  /\ skipn (base + nb) m2 = skipn (base + nb) msg
+  /\ length m2 = length msg.
+Proof. exact StreamCipherProofs.snow3g_uea2_bits_ob0_twice. Qed.
+Print Assumptions snow3g_uea2_bits_window_restored.
+
 (* IMB_CIPHER_KASUMI_UEA1_BITLEN in place: every bit length and bit offset *)
 Theorem kasumi_f8_involutive :
   forall key iv msg bitlen bitoff,
